@@ -769,7 +769,11 @@ func Gen(t *rapid.T, opt Options) *Program {
 		}
 	}
 	// composite globals
-	for i, n := 0, g.n(0, 2, "ncglobals"); i < n; i++ {
+	maxCG := 2
+	if opt.NoCompositeGlobals {
+		maxCG = 0
+	}
+	for i, n := 0, g.n(0, maxCG, "ncglobals"); i < n; i++ {
 		ct := g.pickType("gT")
 		if ct.IsScalar() || ct.K == KPtr {
 			continue
